@@ -162,7 +162,12 @@ class HSTRPDatagramProtocol(DatagramProtocol, LoggingTrait):
         elif pdu.pkt_type.is_reject:
             was_handled = True
             self.log_warning(f"peer REJECT-ed our request S/N:{pdu.sn}")
-            self.log_warning(repr(pdu))
+            # noinspection PyBroadException
+            try:
+                self.log_warning(repr(pdu))
+            except:
+                # payload fields (eg. text) of received PDU might not be representable
+                self.log_warning(f"REJECT PDU could not be represented {data.hex()}")
 
         if not was_confirmed and not pdu.pkt_type.is_ack:
             # confirm all hstrp incoming messages, that are not confirmations
